@@ -1581,6 +1581,11 @@ func Program(rt *rapid.T, p Profile) (*oracle.Program, *Meta) {
 		hdr += "\t\"" + im + "\"\n"
 	}
 	hdr += ")\n\n"
+	if rx.Chance(rt, "relayout", 1, 3) {
+		// the same token sequence, spread over more lines (see Relayout)
+		g.meta.feat("relayout")
+		src = Relayout(rt, src, 1, rx.Pick(rt, "breakrate", 3, 8, 20))
+	}
 	files["prog.go"] = hdr + src
 	prog := &oracle.Program{Files: files}
 	return prog, g.meta
